@@ -30,6 +30,14 @@ CLAIMED = {
          "4 C10", "the window between releasing _parent_done_lock and the queue put (schedule; G)"),
  "C18": ("the wrapper body executed symbolically for every handler outcome class: status/shape table, raises-only-for-retry, PENDING iff suspension, checkpoint thread stopped before the pool joins; LambdaClient wraps every API/parsing failure into the classified error",
          "4 C18", "CheckpointError.from_exception's HTTP-status table is decided in C06.exec.is_retriable when built"),
+ "C07": ("SAFETY HALF ONLY: every suspension raised by a handler follows an accepted synchronous START/RETRY or an existing non-terminal record, with the right kind (timed / indefinite); should_execution_suspend verified with a loop invariant over any number of branches; the done-callback's status transitions and completion/suspension decision; PENDING iff SuspendExecution in the wrapper",
+         "4 C07, 5", "LIVENESS IS NOT DECIDED: 'always woken again', 'reaches SUCCEEDED/FAILED after finitely many invocations', 'no invocation runs forever', and the real-time clause about a branch already running when the last sibling parked (needs fairness / real-time scheduling; outside contract-based verification)"),
+ "C08": ("the id functions verified against a spec hash of (parent id, index); exactly one atomic counter increment per operation; every operation method of DurableContext and the branch executor link (id, parent id, child context parent) as the statement requires; string lemma: position text is injective",
+         "4 C08", "blake2b collision freedom (cryptographic assumption); several user threads sharing one context (U)"),
+ "C09": ("completion policy: ExecutionCounters against spec functions (linear real arithmetic); lemma over the REAL __init__ mapping, stop decision and classifier: the reported reason is consistent with item statuses and policy; items/replay faithful (generic pair of branches); pool size, one submission per branch, no join, empty input",
+         "4 C09", "'returns exactly when decided' and the concurrency bound as real-time behaviour of ThreadPoolExecutor (S)"),
+ "C17": ("Logger gate and extras; track_replay flip against a quantified spec over an arbitrary operations map; every operation method calls track_replay(id) exactly after a normal return; initial status for every pagination; boundary lemma with one known finding (region excluded, rest proved)",
+         "4 C17", "the sequential-program induction from per-call contracts to whole programs (U)"),
  "C20": ("every wire codec pair executed symbolically on fully symbolic well-typed objects; N(from(to(x))) == N(x) per field, dict and JSON routes, plus presence of every option in the wire form",
          "4 C20", "float rounding of millisecond conversion (A)"),
 }
